@@ -198,6 +198,7 @@ PROPS = {
     ),
     'C06': dict(
         areas=[('reader', 6000, 600000), ('rank', 4000, 400000), ('filter', 3000, 200000)],
+        procs=['conv'], needs_fzf=True,
         rule='scripted io.Reader: streams of delimiter / CR / NUL / multi-byte pieces cut into reads of 0..3 bytes (incl. reads '
              'without progress, data+EOF and data+error outside the OS quantifier), both delimiters; large generated streams of '
              '65535..300000 bytes with records of 0..140000 bytes read in steps of 1..70000 bytes (64 KiB buffer and 128 KiB slab '
